@@ -103,7 +103,7 @@ func (B *Bounds) sites(fn *ssa.Function) []bSite {
 	bf := B.of(fn)
 	var out []bSite
 	add := func(ins ssa.Instruction, kind, construct string, reqs ...bReq) {
-		out = append(out, bSite{fn: fn, ins: ins, kind: kind, construct: construct, reqs: reqs})
+		out = append(out, bSite{fn: fn, ins: ins, kind: kind, construct: canonConstruct(fn, construct), reqs: reqs})
 	}
 	ge0 := func(a aff, what string) bReq { return bReq{a, what} }
 	for _, b := range fn.Blocks {
